@@ -232,15 +232,17 @@ def infer_dtype(values: Iterable[Any]) -> DataType:
     <object>
     """
     dtype: Optional[DataType] = None
+    leading_none = False
 
     for v in values:
         if dtype is None:
-            # First element
+            # First non-None element fixes the starting kind;
+            # leading Nones only make the result nullable
             k = infer_kind(v)
             if k is None:
-                dtype = DataType(object, nullable=True)
+                leading_none = True
             else:
-                dtype = DataType(k, nullable=False)
+                dtype = DataType(k, nullable=leading_none)
         else:
             dtype = dtype.promote_with(v)
 
